@@ -7,15 +7,16 @@ EXTENDS Naturals, Sequences, FiniteSets, TLC, Json
 Sections == <<"lua", "gfx", "gff", "map", "sfx", "music">>
 SecSet == {"lua", "gfx", "gff", "map", "sfx", "music"}
 ArgKinds(s) == {"unspec", "p8", "png", "empty", "blank"} \cup (IF s = "lua" THEN {"luafile"} ELSE {})
-ErrKinds == {"both", "missing", "badext"}         \* --S and --empty-S; nonexistent source; wrong extension
+ErrKinds == {"both", "missing", "badext", "luaext"}   \* --S and --empty-S; nonexistent source; wrong extension; a .lua file for a section other than lua
 CONSTANTS MaxSpec,        \* at most this many sections named on the command line (6 = all configurations)
           MinSpec,        \* at least this many
           NoErr           \* TRUE: only usable arguments
 VARIABLES args, out0, fmt
 vars == <<args, out0, fmt>>
 Init == /\ out0 \in {"absent", "existing"} /\ fmt \in {"p8", "png"}
-        /\ args \in [SecSet -> {"unspec", "p8", "png", "empty", "blank", "luafile", "both", "missing", "badext"}]
+        /\ args \in [SecSet -> {"unspec", "p8", "png", "empty", "blank", "luafile", "both", "missing", "badext", "luaext"}]
         /\ \A s \in SecSet : args[s] \in ArgKinds(s) \cup ErrKinds
+        /\ args["lua"] # "luaext"
         /\ Cardinality({s \in SecSet : args[s] \in ErrKinds}) <= 1
         /\ Cardinality({s \in SecSet : args[s] # "unspec"}) <= MaxSpec
         /\ Cardinality({s \in SecSet : args[s] # "unspec"}) >= MinSpec
